@@ -28,13 +28,13 @@ MAX_TIMEOUTS = {"quick": 1, "thorough": 20}
 REQUIRED = {"placements_checked": 1500, "placements_wrapped": 150, "start_on_grid_checked": 150,
             "placements_with_force": 100, "rejected_trials": 50, "noncubic_runs": 10, "user_grid_runs": 5,
             "density_runs": 5, "ring_closures": 500, "systems_with_tree_consolidation": 15,
-            "systems_with_two_residues_under_one_name": 40, "boxes_that_are_multiples_of_the_grid_spacing": 30}
+            "systems_with_two_residues_under_one_name": 40, "boxes_that_are_multiples_of_the_grid_spacing": 30, "long_chains": 15}
 
 
 def plan(tier, seed):
     n = 400 if tier == "quick" else 4000
     return [["sys", i] for i in range(n)] + [["edge", i] for i in range(n // 3)] + [["ring", i] for i in range(n // 2)] + \
-        [["gridface", i] for i in range(n // 8)]
+        [["gridface", i] for i in range(n // 8)] + [["long", i] for i in range(n // 16)]
 
 
 def setup():
@@ -51,6 +51,11 @@ def run_case(cid, rng, workdir):
                             kinds=["single", "single", "chain"], n_restypes=2)
         sysd["molecules"] = [(sysd["moltypes"][0]["name"], rng.randint(8, 14))]
         bump(res, "ring_closures", sysd["molecules"][0][1])
+    elif cid[0] == "long":
+        # one long chain in a box it almost fills: the walk folds back on itself, so second neighbours come close
+        sysd = T.gen_system(rng, max_types=1, min_res=100, max_res=150, max_count=1, kinds=["single"], shapes=("lin",))
+        sysd["molecules"] = [(sysd["moltypes"][0]["name"], 1)]
+        bump(res, "long_chains")
     elif cid[0] == "gridface":
         # box edges that are whole multiples of the grid spacing (4.2 nm with 0.2 or 0.3 nm): rounding puts the last plane
         # of a naive grid onto the upper face, which is outside the periodic cell; many short molecules = many starts
